@@ -26,9 +26,18 @@ import (
 const vC03Dest = cciptypes.ChainSelector(900)
 
 // ---------- Coq term printers for the state-machine types (shared shape with Model/CommitSM.v) ----------
-type vC03Terms struct{ in *vIntern }
+type vC03Terms struct {
+	in   *vIntern
+	dest cciptypes.ChainSelector // destination whose RMN remote config the consensus term shows (0 = vC03Dest)
+}
 
-func (t vC03Terms) addr(b []byte) string { return cN(t.in.Id("a:" + hex.EncodeToString(b))) }
+func (t vC03Terms) destSel() cciptypes.ChainSelector {
+	if t.dest != 0 {
+		return t.dest
+	}
+	return vC03Dest
+}
+func (t vC03Terms) addr(b []byte) string  { return cN(t.in.Id("a:" + hex.EncodeToString(b))) }
 func (t vC03Terms) h32(b [32]byte) string { return cN(t.in.Id("h:" + hex.EncodeToString(b[:]))) }
 func (t vC03Terms) root(r cciptypes.MerkleRootChain) string {
 	return cTup(cN(uint64(r.ChainSel)), cPair(cN(uint64(r.SeqNumsRange.Start())), cN(uint64(r.SeqNumsRange.End()))),
@@ -76,7 +85,7 @@ func (t vC03Terms) cons(c consensusObservation, err error) string {
 	}
 	sort.Slice(ks, func(a, b int) bool { return ks[a] < ks[b] })
 	roots := cMap(ks, func(k cciptypes.ChainSelector) string { return t.root(c.MerkleRoots[k]) })
-	return cSome(cApp("mkCons", roots, t.seqMap(c.OnRampMaxSeqNums), t.seqMap(c.OffRampNextSeqNums), t.cfg(c.RMNRemoteConfig[vC03Dest])))
+	return cSome(cApp("mkCons", roots, t.seqMap(c.OnRampMaxSeqNums), t.seqMap(c.OffRampNextSeqNums), t.cfg(c.RMNRemoteConfig[t.destSel()])))
 }
 func (t vC03Terms) query(q Query) string {
 	b := cNone()
